@@ -44,7 +44,9 @@ def _device():
     els = {f"e{i}": {"name": f"T{i}", "label": None, "default": "init", "enabled": True} for i in range(2)}
     v = {"kind": "Text", "name": "TXT", "label": None, "state": "Ok", "perm": "rw", "timeout": 0, "enabled": True,
          "elements": els, "rule": None, "default_on": None}
-    return {"name": "D", "name_via": "class", "levels": [{"groups": {"g0": {"name": "MAIN", "enabled": True, "vectors": {"v0": v}}}}]}
+    b = {"kind": "BLOB", "name": "IMG", "label": None, "state": "Ok", "perm": "ro", "timeout": 0, "enabled": True,
+         "elements": {"e0": {"name": "B0", "label": None, "default": None, "enabled": True}}, "rule": None, "default_on": None}
+    return {"name": "D", "name_via": "class", "levels": [{"groups": {"g0": {"name": "MAIN", "enabled": True, "vectors": {"v0": v, "v1": b}}}}]}
 
 
 def generate(seed, tier, index):
@@ -69,6 +71,11 @@ def generate(seed, tier, index):
         steps[k]["big_at"] = rng.randrange(steps[k]["n"])
         steps[k]["big_len"] = rng.choice([70000, 140000, 200000])
     ntcp = rng.randint(1, 3)
+    blob_peers = [i for i in range(ntcp) if rng.random() < 0.4]  # these connections ask for BLOBs (enableBLOB Also)
+    if blob_peers:
+        for st_ in steps:
+            if st_["op"] == "burst":
+                st_["blob_at"] = [i for i in range(st_["n"]) if rng.random() < 0.4]  # which updates of the burst are BLOB updates
     tty = rng.random() < 0.6
     targets = [f"tcp{i}" for i in range(ntcp)] + (["tty"] if tty else [])
     stall = rng.choice([None, None] + targets)
@@ -76,7 +83,7 @@ def generate(seed, tier, index):
         frag_choices = ["whole", "coalesce", "fixed:1024"]
     else:
         frag_choices = ["whole", "fixed:1", "fixed:7", "random", "coalesce"]
-    return {"world": world, "steps": steps, "ntcp": ntcp, "tty": tty, "stall": stall, "frag_choices": frag_choices,
+    return {"world": world, "steps": steps, "ntcp": ntcp, "tty": tty, "stall": stall, "frag_choices": frag_choices, "blob_peers": blob_peers,
             "pool": {"workers": rng.randint(2, 6), "jitter": rng.choice(["none", "small", "small", "wide"])},
             "net": {"latency": rng.choice(["zero", "lan", "slow", "bursty"]), "frag": rng.choice(frag_choices),
                     "hwm": rng.choice([0, 1, 64, 65536])},
@@ -119,6 +126,9 @@ def execute_server(scen, sim, viol, probes, facts):
     for i in range(scen["ntcp"]):
         peers.append(stack.add_raw(f"tcp{i}"))
     sim.settle()
+    for i in scen.get("blob_peers", []):
+        sim.do(peers[i].send, '<enableBLOB device="D">Also</enableBLOB>\n')
+    sim.settle()
     handlers = list(server_tcp.ConnectionHandler.connections)
     routed = {}  # name -> [views]
     names = {id(h): f"tcp{i}" for i, h in enumerate(handlers)}
@@ -152,8 +162,13 @@ def execute_server(scen, sim, viol, probes, facts):
         counter = [0]
         big = 0
 
-        def one_update(big_len=0):
+        def one_update(big_len=0, blob=False):
             counter[0] += 1
+            if blob:
+                from indi.device.values import BLOB as BlobValue
+                stack.el_obj("D", "IMG", "B0").value = BlobValue(b"frame%d" % counter[0], ".f")
+                probes["blob_update_in_burst"] = probes.get("blob_update_in_burst", 0) + 1
+                return
             el = stack.el_obj("D", "TXT", "T0" if counter[0] % 2 else "T1")
             el.value = f"u{counter[0]}" + ("x" * big_len)
             if big_len:
@@ -169,14 +184,14 @@ def execute_server(scen, sim, viol, probes, facts):
             if st["same_iteration"]:
                 def burst(n=st["n"], st=st):
                     for i in range(n):
-                        one_update(st["big_len"] if st.get("big_at") == i else 0)
+                        one_update(st["big_len"] if st.get("big_at") == i else 0, i in st.get("blob_at", []))
                 t0, s0 = sim.loop.time(), sim.loop.steps
                 sim.do(burst)
                 if sim.loop.time() != t0:
                     viol.append({"clause": "C19.isolated", "detail": "routing a burst advanced virtual time (the router waited for I/O)", "facts": facts})
             else:
                 for i in range(st["n"]):
-                    sim.do(one_update, st["big_len"] if st.get("big_at") == i else 0)
+                    sim.do(one_update, st["big_len"] if st.get("big_at") == i else 0, i in st.get("blob_at", []))
                     sim.loop.step_iterations(st.get("between", 1))
             if st["n"] >= 2:
                 big += 1
@@ -194,13 +209,14 @@ def execute_server(scen, sim, viol, probes, facts):
             if viol:
                 break
             r = routed.get(nm, [])
-            if len(r) != total_routed:
-                viol.append({"clause": "C19.isolated", "detail": f"{nm}: only {len(r)} of {total_routed} updates were routed to this connection", "facts": facts})
+            want = total_routed if i in scen.get("blob_peers", []) else total_routed - probes.get("blob_update_in_burst", 0)
+            if len(r) != want:
+                viol.append({"clause": "C19.isolated", "detail": f"{nm}: {len(r)} of {want} updates were routed to this connection", "facts": facts})
                 break
             _check_output(nm, p.text, r, stall == nm, viol, dict(facts, channel="tcp"))
         if scen["tty"] and not viol:
             r = routed.get("tty", [])
-            if len(r) != total_routed:
+            if len(r) != total_routed - probes.get("blob_update_in_burst", 0):
                 viol.append({"clause": "C19.isolated", "detail": f"tty: only {len(r)} of {total_routed} updates were routed to this connection", "facts": facts})
             else:
                 _check_output("tty", stack.stdout_file.text, r, stall == "tty", viol, dict(facts, channel="tty"))
